@@ -233,6 +233,7 @@ pub fn gen_session(seed: u64, run: u64, thorough: bool) -> Session {
         tree,
         ops,
         crashes,
+        midload: Vec::new(),
         decisions: None,
         hold,
         meta: json!({}),
@@ -284,6 +285,7 @@ fn reference_session(s: &Session, ops: Vec<PlannedOp>, hash_seed: u64) -> Histor
         tree: s.tree.clone(),
         ops,
         crashes: Vec::new(),
+        midload: Vec::new(),
         decisions: None,
         hold: None,
         meta: json!({"reference": true}),
